@@ -22,6 +22,13 @@ for d in sorted(glob.glob(os.path.join(VERIF, "seeded", pid + "-*"))):
         pass
 
 HINTS = {
+    "r7": """This round: both changes must look like ordinary MAINTENANCE work whose author believed behaviour was unchanged. Pick two DIFFERENT styles (and prefer sites that none of the earlier changes listed below touched):
+  (A) a refactoring slip: a helper extracted / inlined / generalised with two same-typed parameters swapped, a loop rewritten as an iterator chain (zip truncating, skip/take off by one, rev in the wrong place, filter before instead of after enumerate), a match rewritten as if/else with one arm merged, a `?` introduced that now returns early past a later step;
+  (B) an API modernisation: replacing a hand-written loop by a library call with subtly different semantics (sort_by_key vs sort_by, dedup, retain, HashMap entry API, Iterator::max_by returning the LAST maximum, min_by the first, f32::max ignoring NaN, clamp, rem_euclid vs %, abs_diff), swapping a container (HashMap <-> BTreeMap <-> Vec) where some code relied on the old order or on duplicate keys;
+  (C) a "consistency" fix: making two similar code paths (simple vs batch tracker, Sort vs VisualSort, owned vs foreign query, predict vs predict_with_scene) share one implementation that is right for one of them only; unifying two constants / defaults / thresholds that were intentionally different; applying a conversion (normalise, clamp, round) "everywhere" including a place where the raw value is needed;
+  (D) defensive programming that changes behaviour: an added validity check that rejects or silently skips a valid corner input, unwrap_or(default) replacing an error, saturating arithmetic replacing a checked one, an early return for an "impossible" case that is possible;
+  (E) a dependency-style change inside the crate: changing a type (u64 -> u32/usize, f32 -> f64 and back, i64 custom ids), changing integer scaling constants, changing the hash / id generation scheme, with one conversion left behind.
+The change must still need something specific to manifest (unusual input, long or oddly shaped history, particular interleaving, rare option) - avoid changes that any ordinary use exposes at once, and do not repeat the earlier changes' sites and triggers.""",
     "r6": """This round: both changes must be plausible PERFORMANCE OPTIMISATIONS - the most common source of subtle breakage in practice. Pick two DIFFERENT optimisation styles (and prefer sites that none of the earlier changes listed below touched):
   (s) caching / memoisation of a derived value (with an invalidation that misses one path), reuse of a buffer or object across calls or across scenes / tracks / threads;
   (t) skipping work that is "obviously" unnecessary (early exit, pre-filter, pruning, fast path for a common case) where the justification fails for an unusual but valid input;
